@@ -57,6 +57,8 @@ func main() {
 		reloadMode(*seed, *n, *walk)
 	case "fail":
 		failMode(*seed, *n)
+	case "shutdown":
+		shutdownMode(*seed)
 	default:
 		fmt.Fprintln(os.Stderr, "unknown mode")
 		os.Exit(2)
